@@ -232,6 +232,76 @@ def oracle_colnum(c):
     return not bad, 'col2num(num2col(n)) == n and num2col(n) == openpyxl letter', bad[:5]
 
 
+def _letters(n):
+    """bijective base 26, written out independently of the library and of openpyxl"""
+    out = ''
+    while n > 0:
+        n, r = divmod(n - 1, 26)
+        out = chr(65 + r) + out
+    return out
+
+
+def cases_order(tier, seed):
+    step = 1500
+    for lo in range(1, 18279, step):
+        yield dict(lo=lo, hi=min(lo + step, 18279))
+
+
+def oracle_order(c):
+    """resolve_ranges lists a rectangle row by row, left to right - for EVERY starting column and every width 1..4"""
+    import importlib
+    utils = importlib.import_module('xlcalculator.utils')        # (the package rebinds `utils` to xlfunctions.utils)
+    bad = []
+    for n in range(c['lo'], c['hi']):
+        for w in (1, 2, 3, 4):
+            if n + w - 1 > 18278:
+                continue
+            r0 = 1 + (n % 7)
+            text = f'{_letters(n)}{r0}:{_letters(n + w - 1)}{r0 + 1}'
+            sheet, cells = utils.resolve_ranges(('Data!' if n % 2 else '') + text, default_sheet='Home')
+            sh = 'Data' if n % 2 else 'Home'
+            exp = [[f'{sh}!{_letters(k)}{r}' for k in range(n, n + w)] for r in (r0, r0 + 1)]
+            if sheet != sh or cells != exp:
+                bad.append((text, cells[:1]))
+    return not bad, 'rows x columns cells in row-major order', bad[:3]
+
+
+def cases_wide(tier, seed):
+    for start in (23, 24, 25, 26, 27, 700, 701, 702, 703):
+        for w in (2, 3, 6):
+            for style in ('plain', 'abs'):
+                yield dict(start=start, w=w, style=style)
+
+
+def oracle_wide(c):
+    """end to end: a two-row range crossing the Z/AA (ZZ/AAA) column boundary read by order-sensitive functions"""
+    import xlcalculator
+    from drivers.common import build_model, observe
+    cols = [_letters(k) for k in range(c['start'], c['start'] + c['w'])]
+    cells, expect = {}, ''
+    for r in (1, 2):
+        for j, col in enumerate(cols):
+            v = f'{col.lower()}{r}.'
+            cells[f'Data!{col}{r}'] = v
+            expect += v
+    d = '$' if c['style'] == 'abs' else ''
+    ref = f'Data!{d}{cols[0]}{d}1:{d}{cols[-1]}{d}2'
+    cells['Sheet1!A1'] = f'=CONCAT({ref})'
+    cells['Sheet1!A2'] = f'=VLOOKUP("{cols[0].lower()}2.",{ref},{c["w"]},FALSE)'
+    exp = [('text', expect), ('text', f'{cols[-1].lower()}2.')]
+    try:
+        ev = xlcalculator.Evaluator(build_model(cells))
+        obs = []
+        for a in ('Sheet1!A1', 'Sheet1!A2'):
+            try:
+                obs.append(observe(ev.evaluate(a)))
+            except Exception as ex:      # noqa
+                obs.append(('raise', f'{type(ex).__name__}: {str(ex)[:100]}'))
+    except Exception as ex:      # noqa
+        return False, exp, f'model: raise {type(ex).__name__}: {str(ex)[:160]}'
+    return obs == exp, exp, obs
+
+
 def cases_colnum(tier, seed):
     step = 2000
     for lo in range(1, 18279, step):
@@ -249,6 +319,11 @@ DRIVERS = [
            rule='defined names bound to a cell / a range on each sheet, used from a formula on each sheet and evaluated directly', bound='3x3 sheets'),
     Driver('C03/B10.chains', cases_chains, oracle, nchunks=2,
            rule='seeded chains of 2..6 hops over three sheets, every hop adding its own sheet\'s A1 by an unqualified or qualified reference', bound='40 (quick) / 400 (thorough) chains'),
+    Driver('C03/F8.range_order', cases_order, oracle_order, nchunks=8, exhaustive=True,
+           rule='utils.resolve_ranges on a 2-row rectangle starting at EVERY column 1..18278, widths 1..4, qualified and unqualified: exactly its rows x columns addresses in row-major order on the right sheet (letters from an independent base-26 routine)',
+           bound='all starting columns, widths <= 4 (complete for those)'),
+    Driver('C03/B10.wide', cases_wide, oracle_wide, nchunks=4, exhaustive=True,
+           rule='two-row ranges crossing the Z/AA and ZZ/AAA column boundaries, plain and $: CONCAT (row-major) and VLOOKUP (key in the first column, value from the last)', bound='9 starts x 3 widths'),
     Driver('C03/F8.columns', cases_colnum, oracle_colnum, nchunks=4, exhaustive=True,
            rule='col2num(num2col(n)) == n for all 18278 columns, $ ignored, letters equal openpyxl', bound='all columns (complete)'),
 ]
